@@ -207,7 +207,12 @@ def rule_z4(chk: Check, ci) -> None:
         chk.finding("Z4", init.key, "timeout-wiring", "the upstream client is not built with the handler's timeout: a stalling upstream holds the downstream client beyond the location's timeout", init.loc())
     chk.ob("Z4", "client timeout = handler timeout", ok)
     fi = chk.proj.func("server.config:ServerConfig.get_location_router")
-    okr = any((dotted(c.func) or "").split(".")[-1] == "ProxyHandler" and dotted(kwarg(c, "timeout")) == "loc.timeout" for c in ast.walk(fi.node) if isinstance(c, ast.Call))
+    okr = any(
+        (dotted(c.func) or "").split(".")[-1] == "ProxyHandler"
+        and (dotted(kwarg(c, "timeout")) or "").endswith(".timeout")
+        and (dotted(kwarg(c, "timeout")) or "").rsplit(".", 1)[0] == (dotted(kwarg(c, "upstream")) or "?.x").rsplit(".", 1)[0]
+        for c in ast.walk(fi.node) if isinstance(c, ast.Call)
+    )
     if not okr:
         chk.finding("Z4", fi.key, "location-timeout", "the location's timeout does not reach its ProxyHandler", fi.loc())
     chk.ob("Z4", "location timeout reaches the handler", okr)
